@@ -95,7 +95,7 @@ def check_cfg(ctx, fx, cfg):
     for f in tcs:
         crs = timers.creations(fx, f)
         b = ctx.body(fx, f)
-        n = nfa.build(b, A)
+        n = nfa.build(b, A, fx, depth=2)  # the submit may sit in a small awaited helper (`self_send.send_next().await`)
         # one body may serve several public APIs, told apart by a constant it captures (`Schedule::Once` / `Repeatedly`):
         # each (API, constants) instance is followed on its own
         insts = timers.creation_instances(fx, f) or [(fx.fn(f.get("parent") or "") or f, None, {})]
